@@ -155,3 +155,36 @@ def floor_div(a: Any, b: int) -> Any:
 def sign_agrees(r: Any, diff: Any) -> Any:
     """sign(r) == sign(diff)"""
     return And(Iff(r < 0, diff < 0), Iff(r == 0, diff == 0), Iff(r > 0, diff > 0))
+
+
+# ---- dates (ghost components of packed words; see specs/packmodel.py)
+def ld_ymdc(d: Any) -> Any:
+    return fld(d, "_LocalDate__year_month_day_calendar")
+
+
+def ld_y(d: Any) -> Any:
+    return fld(ld_ymdc(d), "$y")
+
+
+def ld_m(d: Any) -> Any:
+    return fld(ld_ymdc(d), "$m")
+
+
+def ld_d(d: Any) -> Any:
+    return fld(ld_ymdc(d), "$d")
+
+
+def ld_ord(d: Any) -> Any:
+    return fld(ld_ymdc(d), "$o")
+
+
+def ymd_y(o: Any) -> Any:
+    return fld(o, "$y")
+
+
+def ymd_m(o: Any) -> Any:
+    return fld(o, "$m")
+
+
+def ymd_d(o: Any) -> Any:
+    return fld(o, "$d")
